@@ -72,3 +72,57 @@ prop(
     floors=[dict(stage="lists", key="evaluations", min=8_000_000_000), dict(stage="lists", key="ipv6_boundary_probes", min=10_000)],
     assumptions=["the doc comments of the two functions are the specification (as the property says); netip.Prefix.Contains of the pinned stdlib decides membership"],
 )
+
+prop(
+    "C13",
+    "literal-definition monitor: ContainsFold is compared with 'exists a rune-boundary window of len(sub) bytes that EqualFold-s sub' and (ASCII operands) with Contains(ToLower, ToLower); "
+    "SplitTrimmed with Split(TrimSpace) -> trim -> drop empties (non-nil). Exhaustive (s, sub) pairs over every rune of every simple-fold orbit with more than two members (computed from unicode.SimpleFold) "
+    "plus controls, needles inserted as random case variants at every offset of random haystacks, all strings up to length 6(7) over a 12-symbol whitespace/separator alphabet x 18 separators. "
+    "Non-trivial: the scan loop is entered (len(s)>len(sub)>0) / the input contains the separator or outer whitespace; enumerated pairs are distinct by construction",
+    [st("fold", "c13", "TestFold", timeout_q=600, timeout_t=3000), st("split", "c13", "TestSplit", timeout_q=600, timeout_t=1800)],
+    floors=[dict(stage="fold", key="evaluations", min=10_000_000), dict(stage="split", key="evaluations", min=1_000_000)],
+    assumptions=["strings.EqualFold / unicode.SimpleFold of the pinned stdlib define 'simple case folding'", "operands are valid UTF-8 without U+FFFD (the statement's precondition)"],
+)
+
+prop(
+    "C11",
+    "abstract-model monitor: a Go map (sets) and the slice of all pushes since creation/Clear (ring) shadow the real container; after EVERY operation every query is compared: Has on the whole universe, Len, Values, "
+    "Range with every early-stop point, Equal against equal / one-element-different / nil sets, String; for clones the frozen other side is re-observed after every later operation; ring: Len, Range, ReverseRange with every "
+    "early stop, Current, and a fresh twin buffer from each Clear. Histories are enumerated exhaustively to the stated depth; a history is one case (all distinct by construction)",
+    [st("sets", "c11", "TestSets", timeout_q=600, timeout_t=2400), st("ring", "c11", "TestRing", timeout_q=600, timeout_t=1800)],
+    floors=[dict(stage="sets", key="set_histories", min=100_000), dict(stage="ring", key="ring_histories", min=50_000)],
+    assumptions=["only documented nil-receiver behaviours are demanded", "values pushed into ring buffers are unique and non-zero so a stale slot is distinguishable"],
+)
+
+prop(
+    "C15",
+    "online conservation monitor around a script-driven wrapped reader / writer: at every underlying Read, len(p) <= limit - bytes returned so far; every (k, err) of the wrapped reader reaches the caller unchanged; "
+    "delivered bytes are a prefix of the stream and never exceed n; once n bytes are delivered every Read is (0, *LimitError{n}) without touching the wrapped reader; the wrapped writer receives exactly the first "
+    "min(total, n) bytes in order and every Write reports len(b). A history (stream length, limit, buffer-size sequence, behaviour script) is one case; enumerations are distinct by construction. "
+    "Non-trivial: stream length >= limit (reader) / total written >= limit (writer)",
+    [st("reader", "c15", "TestReader", timeout_q=600, timeout_t=2400), st("writer", "c15", "TestWriter", timeout_q=600, timeout_t=1800)],
+    floors=[dict(stage="reader", key="reader_histories", min=1_000_000), dict(stage="writer", key="writer_histories", min=100_000)],
+    assumptions=["wrapped readers stay inside the io.Reader contract (0 <= k <= len(p))"],
+)
+
+URLGEN = ("URL texts: structured product of 14 schemes x 13 userinfos x 16 hosts x 19 paths x 17 queries x 10 fragments (quick: a 400k stride through it, thorough: all 9.4M), opaque forms, a path/query/fragment matrix, "
+          "edit-distance-1 mutants of fixtures and repository table rows, seeded random")
+prop(
+    "C14",
+    "round-trip / differential monitors per codec. Duration: UnmarshalText(MarshalText(d))==d and String()==textual rule on time.Duration.String (strip '0s' after 'm', then '0m' after 'h'), over a boundary grid, every whole second in +-3d, "
+    "every whole minute in +-400d and seeded random int64s (non-trivial: the trimming rule fires). HostPort: ParseHostPort(hp.String())==hp over a hostile host pool x ports. Prefix: UnmarshalText == netip.ParsePrefix on '/' texts and "
+    "== PrefixFrom(addr, BitLen) on bare addresses over near-miss texts and an alphabet sweep. URL: for every text accepted by urlutil.Parse, MarshalText->UnmarshalText and json.Marshal->Unmarshal (bare pointer and struct field) must "
+    "reproduce String(); judged only where the plain net/url round trip is itself idempotent (others counted as stdlib_roundtrip_not_idempotent and cross-checked text-vs-JSON). " + URLGEN +
+    ". URL cases are counted distinct by hash of the raw text",
+    [st("duration", "urls", "TestDuration", timeout_q=600, timeout_t=3000), st("hostport_prefix", "urls", "TestHostPortPrefix", timeout_q=600, timeout_t=1800), st("url", "urls", "TestURL", timeout_q=600, timeout_t=3000)],
+    floors=[dict(stage="duration", key="evaluations", min=2_000_000), dict(stage="url", key="urls_accepted_by_Parse", min=50_000), dict(stage="url", key="urls_whose_json_needs_escapes", min=1_000)],
+    assumptions=[STDLIB, "URLs whose plain net/url String->Parse->String round trip is not idempotent are not blamed on golibs (counted in the evidence)"],
+)
+prop(
+    "C16",
+    "two-run non-interference monitor: every base URL accepted by url.Parse is instantiated with each of 15 credentials (user-only, user+password, empty, mask-like, escaped, non-ASCII, token-like) and all redacted String()s must be "
+    "identical, the userinfo must be the fixed mask, every other component must DeepEqual the input's, the input must be unchanged and a nil-userinfo URL returned as is; RedactUserinfoInURLError is observed on top-level, "
+    "wrapped, joined, custom and plain errors and on URLs without userinfo. " + URLGEN + ". A base URL is one case (distinct by hash)",
+    [st("redact", "urls", "TestC16", timeout_q=600, timeout_t=3000)],
+    floors=[dict(stage="redact", key="base_urls", min=30_000)],
+)
